@@ -44,7 +44,10 @@ RULE = (
     "dry_run) and mirror (copy all, rewrite originals with other content of "
     "the same size, copy again to the same target).  The values of the user "
     "placeholders contain proper prefixes of each other (A/AB, NOAA1/NOAA18) "
-    "and white / black filters name the shorter ones.  Oracle = in-memory model with the harness' own name formatter "
+    "and white / black filters name the shorter ones; filesets without end "
+    "fields get a time_coverage (timedelta or string) that lets files written "
+    "late in their directory period reach into the next one, and period "
+    "selections begin there.  Oracle = in-memory model with the harness' own name formatter "
     "and coverage model; checked after every step: directory listing = model, "
     "untouched files byte-identical, archives open with gzip/bz2/zipfile/lzma "
     "and hold the handler output, every file reads back to the modelled value "
@@ -171,8 +174,19 @@ class World:
             "write_args": dict(spec["write_args"]),
             "temp_dir": self.tmp, "max_processes": 2,
         }
-        if tpl["coverage_s"] is not None:
-            kwargs["time_coverage"] = dt.timedelta(seconds=tpl["coverage_s"])
+        cov = tpl["coverage_s"]
+        if cov is not None:
+            if spec.get("coverage_as") == "str" and float(cov).is_integer():
+                cov = int(cov)
+                kwargs["time_coverage"] = (
+                    "%d hours" % (cov // 3600) if cov % 3600 == 0
+                    else "%d minutes" % (cov // 60) if cov % 60 == 0
+                    else "%d s" % cov)
+                self.ctx.label("coverage-as-string")
+            else:
+                kwargs["time_coverage"] = dt.timedelta(seconds=cov)
+            if G.dir_period(tpl) is not None:
+                self.ctx.label("coverage-with-temporal-dirs")
         if spec["post"]:
             kwargs["post_reader"] = M.POSTS[spec["post"]]
         if spec["worker_type"]:
@@ -379,6 +393,15 @@ class World:
         exp = [f for f in files
                if G.in_period(f, start or MIN, end or MAX)
                and filter_ok(f, filters)]
+        if start is not None and limit is not None:
+            tpl = self.specs[i]["template"]
+            for f in exp:
+                boundary = H.next_boundary(tpl, f.t0)
+                if f.t0 < boundary <= start:
+                    self.ctx.label(
+                        "sel-reaches-back-by-coverage"
+                        if G.end_style(tpl) == "none" else
+                        "sel-reaches-back-by-end-field")
         if start is not None:
             kwargs["start"] = start
         if end is not None:
